@@ -31,7 +31,7 @@ def run(ctx):
                                                key=lambda e, c: "batch %s" % e["_why"])
     vn, vcases, vdepth = vc.run(ctx, ["batchissuer"])   # Verdicts.tla: ONE batch issuer object over every history of batches
     failing = sum(1 for c in cases if any(k in ("1unk", "1bad", "2unk", "2bad") for k in c["reqs"]) or c["cfg"] != "both")
-    an, acases = ag.run(ctx, ['batchissuer'])   # Ages.tla: every schedule of phases on one long-lived object, each phase scaled to n operations
+    an, acases = ag.run(ctx, ['batchissuer', 'batchrot'])   # Ages.tla: every schedule of phases on one long-lived object, each phase scaled to n operations
     return ctx.finish({
         **ag.coverage(an, acases),
         "traces_validated_against_impl": n,
